@@ -291,3 +291,73 @@ def checks(tier):
                       "added afterwards; 'in', contains_packed and get_raw for every object of A and B and an absent name",
                outside="midx files written by C git; bitmap/reverse-index chunks", tiers=q),
     ]
+
+
+# ---------------------------------------------------------------------------------------------
+# (d) pack bitmaps: XOR-compressed entries (also chains of them) denote the intended bit sets
+_b14d = checks
+
+
+def h_bitmap_xor_chain(eng, n=3):
+    """n bitmap entries over 65 objects with symbolic bit sets; every entry after the first is stored as the XOR against an
+    earlier entry at a symbolic distance (0 = stored plainly), so chains of XOR-compressed entries arise; get_bitmap(sha)
+    returns each entry's intended bit set, in memory and after write_bitmap_file / read_bitmap_file"""
+    import io
+    from dulwich.bitmap import PackBitmap, BitmapEntry, EWAHBitmap, write_bitmap_file, read_bitmap_file
+
+    def ewah(bits):
+        b = EWAHBitmap()
+        b.bits = set(bits)
+        b.bit_count = 65
+        return b
+    want = [{k for k in range(2) if bool(eng.bool(f"e{i}_bit{k}"))} | ({64} if bool(eng.bool(f"e{i}_bit64")) else set()) for i in range(n)]
+    xors = [0] + [eng.choice(f"e{i}_xor_distance", i + 1) for i in range(1, n)]
+    shas = [bytes([i + 1]) * 20 for i in range(n)]
+    pb = PackBitmap()
+    for t in ("commit_bitmap", "tree_bitmap", "blob_bitmap", "tag_bitmap"):
+        setattr(pb, t, ewah(set()))
+    for i in range(n):
+        stored = want[i] ^ (want[i - xors[i]] if xors[i] else set())
+        e = BitmapEntry(object_pos=i, xor_offset=xors[i], flags=0, bitmap=ewah(stored))
+        pb.entries[shas[i]] = e
+        pb.entries_list.append((shas[i], e))
+    tag = f"[xor distances {xors}, bit sets {[sorted(w) for w in want]}]"
+    for i in range(n):
+        got = pb.get_bitmap(shas[i])
+        eng.prove(got is not None and set(got.bits) == want[i], f"{tag} entry {i} denotes its bit set (got {got is not None and sorted(got.bits)})")
+    f = io.BytesIO()
+    write_bitmap_file(f, pb)
+
+    class _Idx:
+        def __init__(self, names):
+            self.names = names
+
+        def _unpack_name(self, i):
+            return self.names[i]
+
+        def __len__(self):
+            return len(self.names)
+    try:
+        back = read_bitmap_file(io.BytesIO(f.getvalue()))
+    except Exception as ex:
+        eng.fail(f"{tag} a bitmap file written by dulwich cannot be read back: {type(ex).__name__}: {ex}")
+        return
+    eng.prove(len(back.entries) == n, f"{tag} all entries survive the file round trip ({len(back.entries)})")
+    keys = [k for k, _ in back.entries_list]
+    for i in range(min(n, len(keys))):
+        got = back.get_bitmap(keys[i])
+        eng.prove(got is not None and set(got.bits) == want[i], f"{tag} entry {i} denotes its bit set after write and read "
+                                                              f"(got {got is not None and sorted(got.bits)})")
+
+
+def checks(tier):
+    q = ("quick", "thorough")
+    return _b14d(tier) + [
+        KCheck("C14d.bitmap_xor_chain", h_bitmap_xor_chain, parts=[{"n": 2}, {"n": 3}],
+               encoded=["dulwich.bitmap.PackBitmap.get_bitmap", "dulwich.bitmap.EWAHBitmap.__xor__/encode/_decode",
+                        "dulwich.bitmap.write_bitmap_file/read_bitmap_file"],
+               bounds="2-3 bitmap entries with every bit set over {0,1,64} and every choice of XOR distance (0 = plain, or any "
+                      "earlier entry, so chains of XOR-compressed entries of depth 2 arise); in memory and after a file round trip",
+               outside="reachability answers computed from bitmaps of real packs (hundreds of objects are needed before the writer "
+                       "XOR-compresses anything); lookup tables; bitmaps written by C git", tiers=q),
+    ]
